@@ -1,6 +1,8 @@
-"""C13 — rate modifiers (Rates.tla via c06_rates) and ODE modifiers (OdeGen.tla via c01_odegen) change exactly what was targeted."""
+"""C13 — rate modifiers (Rates.tla via c06_rates) and ODE modifiers (OdeGen.tla via c01_odegen) change exactly what was targeted, and
+both survive the path through the project configuration file (ConfigRoundTrip.tla via c20_config, modifier tables only)."""
 import c01_odegen
 import c06_rates
+import c20_config
 from common import Ctx, finish
 
 
@@ -9,8 +11,9 @@ def main(ctx: Ctx) -> int:
     import json
     from common import EVID
     subs = []
-    for mod in (c06_rates, c01_odegen):
+    for mod in (c06_rates, c01_odegen, c20_config):
         sub = Ctx("C13", ctx.tier, ctx.seed)
+        c20_config.MODIFIERS_ONLY = mod is c20_config
         real_finish = mod.finish
         captured = {}
 
@@ -22,10 +25,17 @@ def main(ctx: Ctx) -> int:
             mod.main(sub)
         finally:
             mod.finish = real_finish
-        ctx.violations.extend(sub.violations)
+        if mod is c20_config:
+            # of the configuration round trip only the two modifier tables are this property's: init -> TOML -> what reaches Network(...)
+            for v_ in sub.violations:
+                parts = v_["sig"].split("|")
+                if len(parts) >= 2 and parts[1] in ("rate_modifier", "ode_modifier"):
+                    ctx.violations.append(dict(v_, sig="|".join(["C13", "Config:" + parts[1]] + parts[2:])))
+        else:
+            ctx.violations.extend(sub.violations)
         subs.append(captured)
     cov = {"samples": [], "states": 0, "transitions": 0, "traces_validated_against_impl": 0}
-    for name, c in zip(("rate_modifier", "ode_modifier"), subs):
+    for name, c in zip(("rate_modifier", "ode_modifier", "configuration_path"), subs):
         cc = c["coverage"]
         cov["states"] += cc.get("states", 0)
         cov["transitions"] += cc.get("transitions", 0)
@@ -33,4 +43,4 @@ def main(ctx: Ctx) -> int:
         cov["samples"] += cc.get("samples", [])[:1]
         cov[name] = {k: v for k, v in cc.items() if k not in ("samples",)}
     cov["exhaustive"] = False
-    return finish(ctx, "model_checking", cov, subs[0]["assumptions"] + subs[1]["assumptions"])
+    return finish(ctx, "model_checking", cov, subs[0]["assumptions"] + subs[1]["assumptions"] + subs[2]["assumptions"])
